@@ -31,7 +31,7 @@ BUDGET = {
 
 @st.composite
 def cases(draw):
-    spec = draw(models.model_specs(names=draw(st.sampled_from(["ident", "free"])), n_state=(1, 4), n_control=(0, 3),
+    spec = draw(models.model_specs(calib_types=models.CALIB_TYPES, names=draw(st.sampled_from(["ident", "free"])), n_state=(1, 4), n_control=(0, 3),
                                    n_calib=(0, 2), n_sensors=(0, 1), n_readings=(1, 2), depth=2,
                                    innovation=("none",), template="mixed"))
     n = len(spec["state"])
